@@ -140,9 +140,40 @@ def gen_case(rng, tier):
     return c
 
 
+READS_WORDS = sorted(KEYWORDS | {"subject", "to", "such", "that", "free", "inf", "infinity", "nan", "info", "nancy", "infeasible",
+                                 "nano", "in", "na", "integer1", "mins", "stx", "s.t", "bound.", "free1", "sost"})
+
+
+def gen_reads(rng, tier):
+    """one label, possibly inside the reported defect regions, as a variable or a constraint label"""
+    r = rng.random()
+    if r < 0.45:
+        w = rng.choice(READS_WORDS)
+        s = ''.join(ch.upper() if rng.random() < 0.3 else ch for ch in w)
+        if rng.random() < 0.25:
+            s += rng.choice(VALID)
+    elif r < 0.6:
+        s = ';' + ''.join(rng.choice(VALID) for _ in range(rng.randint(0, 4)))
+    elif r < 0.7:
+        s = rng.choice(FIRST_OK) + ''.join(rng.choice(VALID + [';', ';']) for _ in range(rng.randint(0, 6)))
+    else:
+        s = rand_label(rng, tier, set())
+    try:
+        lp._validate_label(s)
+    except ValueError:
+        s = 'x' + s[1:]
+        try:
+            lp._validate_label(s)
+        except ValueError:
+            s = 'xq'
+    return {"kind": "reads", "label": s, "as_constraint": rng.random() < 0.4, "vars": [], "cons": []}
+
+
 def gen_case0(rng, tier):
     used = set()
     r = rng.random()
+    if r > 0.9:
+        return gen_reads(rng, tier)
     if r < 0.22:
         # refusal stream: one reason (sometimes none: control)
         vars_ = gen_vars(rng, tier, used, rng.randint(1, 4))
@@ -474,7 +505,44 @@ def run_trip(c):
             "nontrivial": bool(c["obj"]["lin"] or c["obj"]["quad"] or c["cons"])}
 
 
+def run_reads(c):
+    s = c["label"]
+    feats = {"kind": "reads", "as_constraint": c["as_constraint"], "zone": label_zone(s) or "none"}
+    other = 'zz9' if s != 'zz9' else 'zz8'
+    cqm = dimod.ConstrainedQuadraticModel()
+    cqm.add_variable('BINARY', other)
+    cqm.add_variable('INTEGER', 'ww7', lower_bound=0, upper_bound=4)
+    if not c["as_constraint"]:
+        cqm.add_variable('BINARY', s)
+    v = other if c["as_constraint"] else s
+    obj = dimod.QuadraticModel()
+    obj.add_variable('BINARY', v); obj.add_variable('INTEGER', 'ww7', lower_bound=0, upper_bound=4)
+    obj.add_linear(v, 2.0); obj.add_linear('ww7', 1.0); obj.add_quadratic(v, 'ww7', 1.5)
+    cqm.set_objective(obj)
+    lhs = dimod.QuadraticModel()
+    lhs.add_variable('BINARY', v); lhs.add_variable('INTEGER', 'ww7', lower_bound=0, upper_bound=4)
+    lhs.add_linear(v, 1.0); lhs.add_linear('ww7', -1.0)
+    cqm.add_constraint_from_model(lhs, '<=', 3.0, label=(s if c["as_constraint"] else 'c0'))
+    try:
+        text = lp.dumps(cqm)
+    except ValueError as e:
+        return {"py_fail": f"generator produced a label dump refuses: {e}", "features": feats}
+    try:
+        new = lp.loads(text)
+        ok = (set(new.variables) == set(cqm.variables) and list(new.constraints) == list(cqm.constraints)
+              and new.objective.is_equal(cqm.objective)
+              and all(new.constraints[k].lhs.is_equal(cqm.constraints[k].lhs) and new.constraints[k].sense is cqm.constraints[k].sense
+                      and new.constraints[k].rhs == cqm.constraints[k].rhs for k in cqm.constraints)
+              and all(new.vartype(x) is cqm.vartype(x) for x in cqm.variables))
+    except Exception:
+        ok = False
+    return {"coq": f"(KReads {cbool(c['as_constraint'])} {ctext(s)} {cbool(ok)})", "py_fail": None, "features": feats,
+            "nontrivial": True, "observed": None if ok else "did not come back"}
+
+
 def run_case(c):
+    if c["kind"] == "reads":
+        return run_reads(c)
     if c["kind"] == "refuse":
         return run_refuse(c)
     return run_trip(c)
